@@ -82,14 +82,16 @@ def two_model_structure(case):
     """One Structure3D object holding two models with the same residue identities: model 1 = case['m1'], model 2 = case['m2'] (both g=1 lattice cases)."""
     from rnapolis.tertiary import Structure3D
 
-    return Structure3D(ac.build_residues(specs_of(case["m1"]), 1) + ac.build_residues(specs_of(dict(case["m2"], idmode=case["m1"].get("idmode", 0))), 2))
+    n1, n2 = case.get("model_numbers", (1, 2))
+    return Structure3D(ac.build_residues(specs_of(case["m1"]), n1) + ac.build_residues(specs_of(dict(case["m2"], idmode=case["m1"].get("idmode", 0))), n2))
 
 
 def two_model_cases(source, stride, offset):
     lst = [c for k, c in enumerate(source) if k % stride == 0]
-    for a, b in zip(lst, lst[offset:] + lst[:offset]):
+    for k, (a, b) in enumerate(zip(lst, lst[offset:] + lst[:offset])):
         if (a["l1"], a["l2"]) == (b["l1"], b["l2"]):
-            yield dict(g=4, m1=a, m2=b)
+            # model numbers of the two models: 1 and 2, or 0 and 1 (zero-based ensembles), or 5 and 2 (not starting at 1, not ascending)
+            yield dict(g=4, m1=a, m2=b, model_numbers=[(1, 2), (0, 1), (5, 2)][k % 3])
 
 
 def structure_of(case):
